@@ -6,6 +6,56 @@ from ..asn import gen, model, der, uper, oer, shapes
 SYNS = ["DER", "UPER", "OER"]
 
 
+def real_round(chk, tc, quick):
+    """foreign reference bytes: the sample PDUs shipped with the example specifications were produced by other implementations
+    (a CA's DER certificate, an LDAP client's message, UMTS RRC messages in unaligned PER): decoding one and encoding it again in
+    the same canonical syntax must give the sample back, octet for octet"""
+    from .. import realpdu
+    nm = realpdu.names(quick)
+    blds = realpdu.make_many(tc, nm)
+    for spec, pdu, syn, label, data in realpdu.samples(tc, nm):
+        b = blds[spec]
+        if b.exe is None:
+            chk.inconcl("shipped specification %s not built (%s)" % (spec, b.error[0]))
+            continue
+        esyn = "DER" if syn == "BER" else syn
+        r = drv.run_cases(b.exe, [drv.Case(1, ["dec s=0 t=%s syn=%s in=%s" % (pdu, syn, drv.hx(data)), "enc s=0 syn=%s" % esyn,
+                                              "free s=0"])], per_case_timeout=120).get(1)
+        replay = {"module": b.text, "options": b.options, "pdu": pdu, "sample": "examples/" + label, "sample_hex": data.hex()[:4000]}
+        if r is None or r.status == "notrun":
+            chk.inconcl("case not run")
+            continue
+        chk.evaluations += 1
+        chk.seen(("real", label, esyn))
+        if r.status in ("crash", "hang"):
+            kind, frame = drv.classify_report(r.stderr)
+            chk.violation({"symptom": r.status, "report": kind, "frame": frame, "syntax": esyn, "kind": "real", "fids": [], "sample": label},
+                          "%s while re-encoding the shipped sample %s: %s in %s" % (r.status, label, kind, frame), dict(replay, stderr=r.stderr[-3000:]))
+            continue
+        d, e = r.events[0], r.events[1]
+        if d.get("rc") != "OK":
+            chk.inconcl("shipped sample %s not decoded (C03)" % label)
+            continue
+        c = int(d["consumed"])
+        want = data[:c]
+        got = drv.unhex(e["out"]) if int(e.get("rc", -1)) >= 0 and e.get("out") not in (None, "trunc", "q") else None
+        if got is None:
+            chk.violation({"symptom": "encode-failed", "syntax": esyn, "kind": "real", "fids": [], "sample": label},
+                          "asn_encode(%s) of the decoded shipped sample %s fails (rc=%s failtype=%s)" % (esyn, label, e.get("rc"), e.get("failtype")), replay)
+            continue
+        same = got == want
+        if not same and esyn == "UPER" and len(got) == len(want) and got[:-1] == want[:-1]:
+            # the decoder reports whole octets: a sample that carries further bits after the message in its last octet
+            # (the '-nopad' files) agrees when the encoder's last octet is the sample's with trailing bits cleared
+            same = any(got[-1] == want[-1] & (0xff << k) & 0xff for k in range(1, 8))
+        if same:
+            chk.count("real_sample_reencoded_identically")
+        else:
+            chk.violation({"symptom": "real-sample-reencoding-differs", "syntax": esyn, "kind": "real", "fids": [], "sample": label},
+                          "%s of the decoded shipped sample %s differs from the sample: %s.. != %s.." % (esyn, label, got.hex()[:80], want.hex()[:80]),
+                          dict(replay, got=got.hex()[:4000]))
+
+
 def run(tier, seed):
     chk = core.Check("C02", tier, seed)
     quick = tier == "quick"
@@ -13,11 +63,13 @@ def run(tier, seed):
     chk.rule = ("generated modules x boundary-biased values (plus the fixed 'shapes' module: lengths at 16K multiples, long OPTIONAL runs, tag "
                 "numbers at the one/multi-octet limits); the value enters through the reference DER, asn_encode(ATS_DER / ATS_UNALIGNED_CANONICAL_PER / "
                 "ATS_CANONICAL_OER) output is compared byte for byte with the independent reference encoders (vf/asn/der.py, uper.py, oer.py); "
-                "distinct = distinct (module, type, value, syntax)")
+                "and the shipped sample PDUs of the X.509 / LDAP (thorough: UMTS RRC) example specifications, produced by other implementations, must come back octet "
+                "for octet from decode + encode; distinct = distinct (module, type, value, syntax)")
     chk.assumptions = ["reference subset: everything generated except time types under UPER, SET under UPER/OER, untagged CHOICE alternatives under OER",
                        "trusts the reference encoders; every disagreement on the unchanged tree was triaged by hand against X.690/X.691/X.696 (DESIGN.md section 6)"]
     tc = build.toolchain()
     tb = taboo.Taboo("C02")
+    real_round(chk, tc, quick)
     nmod = int(os.environ.get("VERIF_NMOD", 4 if quick else 40))
     nvals = 6 if quick else 16
     prof = gen.profile(max_len=24, long_values=not quick)
